@@ -50,7 +50,9 @@ theorem wildcard_one_label (cd pre dom : Str) (heq : eqi cd dom = true) (hpre : 
       have h1 : pre.length = 1 := by omega
       match pre, h1, hpre with
       | [x], _, hx =>
-        have hx : x = DOT := by simpa using hx.symm
+        have hx : x = DOT := by
+          have : DOT = x := by simpa using hx
+          exact this.symm
         subst hx
         have := (eqi_iff _ _).1 he
         simp only [List.cons_append, List.nil_append, List.map_cons, List.cons.injEq] at this
